@@ -26,7 +26,7 @@ type action struct {
 
 type descriptor struct {
 	Starts  int      `json:"starts"`  // start events 1..3
-	Chain   []int    `json:"chain"`   // tasks per start chain (0..2)
+	Chain   []int    `json:"chain"`   // tasks per start chain (0..2); -1 = the start event's only outgoing flow carries a false condition (its token is consumed at the start event)
 	Merge   bool     `json:"merge"`   // chains merge (exclusive gateway) into a common tail task
 	Par     bool     `json:"par"`     // first chain contains a parallel block (2 concurrent tasks)
 	ForkEnd int      `json:"forkEnd"` // 0 none; 1 parallel fork, 2 task with two outgoing flows: the FIRST branch goes straight to an end event, the second to a task
@@ -51,6 +51,7 @@ func build(d descriptor) *gen.Graph {
 		if i < len(d.Chain) {
 			n = d.Chain[i]
 		}
+		deadStart := n < 0 && !(i == 0 && (d.Par || d.ForkEnd > 0))
 		if i == 0 && d.Par {
 			f := b.Add(gen.KPar)
 			j := b.Add(gen.KPar)
@@ -82,11 +83,15 @@ func build(d descriptor) *gen.Graph {
 			b.Connect(f, t2)
 			cur = t2
 		}
+		var last *gen.Flow
 		if d.Merge {
-			b.Connect(cur, merge)
+			last = b.Connect(cur, merge)
 		} else {
 			en := b.Add(gen.KEnd)
-			b.Connect(cur, en)
+			last = b.Connect(cur, en)
+		}
+		if deadStart {
+			last.Formal, last.Cond = true, gen.False()
 		}
 	}
 	return b.G
@@ -339,7 +344,7 @@ func draw(rt *rapid.T) descriptor {
 	d := descriptor{Starts: rapid.IntRange(1, maxStarts).Draw(rt, "starts"), Merge: rapid.Bool().Draw(rt, "merge"), Par: rapid.Bool().Draw(rt, "par"),
 		Perturb: uint64(rapid.IntRange(0, 500).Draw(rt, "perturb")), ForkEnd: rapid.SampledFrom([]int{0, 0, 1, 2}).Draw(rt, "forkEnd")}
 	for i := 0; i < d.Starts; i++ {
-		d.Chain = append(d.Chain, rapid.IntRange(0, 2).Draw(rt, "chain"))
+		d.Chain = append(d.Chain, rapid.IntRange(-1, 2).Draw(rt, "chain"))
 	}
 	na := rapid.IntRange(0, 8).Draw(rt, "nActions")
 	for i := 0; i < na; i++ {
